@@ -7,6 +7,7 @@
   contract (limb i ≤ 2·m·(2^52−1), top limb ≤ 2·m·(2^48−1)), `P` the constant `TheCurve.p`.
 -/
 import GocoinV.Proofs.C08_Field
+import GocoinV.Proofs.C08_Bytes
 import GocoinV.Proofs.C08_Primes
 import GocoinV.Proofs.C08_TabAll
 
@@ -47,6 +48,44 @@ theorem normalize_spec (r : Fe) (h : r.mag 32) :
 
 example : (normalize ⟨0xFFFFEFFFFFC2F, 0xFFFFFFFFFFFFF, 0xFFFFFFFFFFFFF, 0xFFFFFFFFFFFFF, 0xFFFFFFFFFFFF⟩).val = 0 := by decide
 
+/-- `Field.SetB32`: for ALL 32-byte inputs the limbs are canonical and their value is the big-endian
+    integer of the bytes (`a i` is byte i of the slice). -/
+theorem setB32_spec (a : Nat → Nat) (h : ∀ i, a i < 256) :
+    (setB32 a).val = a 31 + a 30 * 2^8 + a 29 * 2^16 + a 28 * 2^24 + a 27 * 2^32 + a 26 * 2^40 + a 25 * 2^48
+      + a 24 * 2^56 + a 23 * 2^64 + a 22 * 2^72 + a 21 * 2^80 + a 20 * 2^88 + a 19 * 2^96 + a 18 * 2^104
+      + a 17 * 2^112 + a 16 * 2^120 + a 15 * 2^128 + a 14 * 2^136 + a 13 * 2^144 + a 12 * 2^152 + a 11 * 2^160
+      + a 10 * 2^168 + a 9 * 2^176 + a 8 * 2^184 + a 7 * 2^192 + a 6 * 2^200 + a 5 * 2^208 + a 4 * 2^216
+      + a 3 * 2^224 + a 2 * 2^232 + a 1 * 2^240 + a 0 * 2^248 ∧ (setB32 a).canon :=
+  setB32_val a h
+
+example : (setB32 (fun i => if i = 31 then 7 else 0)).val = 7 := by decide
+
+/-- Round trip bytes → limbs → bytes: `GetB32(SetB32(b)) = b` for ALL 32-byte strings. -/
+theorem getB32_setB32 (a : Nat → Nat) (h : ∀ i, a i < 256) :
+    getB32 (setB32 a) = [a 0, a 1, a 2, a 3, a 4, a 5, a 6, a 7, a 8, a 9, a 10, a 11, a 12, a 13, a 14, a 15, a 16, a 17, a 18, a 19, a 20, a 21, a 22, a 23, a 24, a 25, a 26, a 27, a 28, a 29, a 30, a 31] :=
+  getB32_setB32' a h
+
+/-- Round trip limbs → bytes → limbs: `SetB32(GetB32(a)) = a` for ALL canonical limb vectors
+    (`bytesFn l` is the index function of the byte list). -/
+theorem setB32_getB32 (a : Fe) (h : a.canon) : setB32 (bytesFn (getB32 a)) = a :=
+  setB32_getB32' a h
+
+example : setB32 (bytesFn (getB32 ⟨5, 6, 7, 8, 9⟩)) = ⟨5, 6, 7, 8, 9⟩ := by decide
+
+/-- `Field.Equals` is equality of the limb vectors; on normalised elements (canonical limbs) that is
+    equality of values (`canon_val_inj`). -/
+theorem equals_iff (a b : Fe) : equals a b = true ↔ a = b := equals_iff' a b
+
+/-- two elements with canonical limbs and the same value are the same limb vector -/
+theorem canonical_unique (a b : Fe) (ha : a.canon) (hb : b.canon) (h : a.val = b.val) : a = b :=
+  canon_val_inj a b ha hb h
+
+/-- `Field.IsZero` holds exactly for the all-zero limb vector, i.e. value 0 (callers normalise first). -/
+theorem isZero_iff (a : Fe) : isZero a = true ↔ a.val = 0 := isZero_iff' a
+
+/-- `Field.IsOdd` is the parity of the value of the limb vector (callers normalise first). -/
+theorem isOdd_iff (a : Fe) : isOdd a = true ↔ a.val % 2 = 1 := isOdd_iff' a
+
 /-- The field characteristic written in `secp256k1.go` (`TheCurve.p`, regenerated) is prime
     (Pratt certificate through Mathlib's `lucas_primality`; powers evaluated in the kernel). -/
 theorem p_prime : Nat.Prime P := by
@@ -56,10 +95,6 @@ theorem p_prime : Nat.Prime P := by
 theorem n_prime : Nat.Prime CurveConsts.order := by
   have h : CurveConsts.order = 0xFFFFFFFFFFFFFFFFFFFFFFFFFFFFFFFEBAAEDCE6AF48A03BBFD25E8CD0364141 := by decide
   rw [h]; exact secp_n_prime
-
-theorem pts_getD (l : List (List Nat)) (i : Nat) (hi : i < l.length) :
-    (pts l).getD i none = ptOfLimbs (l.getD i []) := by
-  simp [pts, List.getD_eq_getElem?_getD, hi]
 
 /-- EVERY entry of the regenerated table `pre_g` (all 4096): entry i is `G + i·(2G)`, i.e. the odd multiple
     (2i+1)·G, computed with the reference affine group law `GocoinV.Secp` by repeated addition. -/
@@ -90,5 +125,25 @@ theorem prec_spec : precRowsOK 64 Secp.G (pts Tables.precAll) = true := prec_row
 
 /-- `fin` is minus the sum of the 64 row bases, −Σ_j 16^j·G (the correction `ECmultGen` adds last). -/
 theorem fin_spec : ptOfLimbs Tables.fin = Secp.neg (headsSum 64 (pts Tables.precAll) none) := fin_neg_sum
+
+/-
+  OPEN (not proved; covered by the differential run only — go/cmd/c08 compares the generated `mul`/`sqr`
+  and the hand group model limb-for-limb with the Go code and evaluates the statements below on the real
+  code against math/big for the generated edge/random inputs):
+
+  -- OPEN: theorem mul_spec (a b : Fe) (ha : a.mag 8) (hb : b.mag 8) :
+  --   (mul a b).val % P = a.val * b.val % P ∧ (mul a b).mag 1
+  --   (needs: every 128-bit accumulator (hi,lo) of the 19 partial products stays < 2^128 — interval
+  --    lemma per accumulation step — and the congruence 2^260 ≡ R = 0x1000003D10 (mod p))
+  -- OPEN: theorem sqr_spec (a : Fe) (ha : a.mag 8) : (sqr a).val % P = a.val * a.val % P ∧ (sqr a).mag 1
+  -- OPEN: inv_spec / sqrt_spec for the addition chains `C08.inv`, `C08.sqrt` (follow from mul_spec/sqr_spec,
+  --   p_prime and a^(p-2), a^((p+1)/4) exponent bookkeeping)
+  -- OPEN: double_correct / add_correct / addXY_correct (Model.Group vs GocoinV.Secp.dbl/add incl. ∞, P+P,
+  --   P+(−P)), magnitude contract of the group formulas
+  -- OPEN: wnaf_sound (Σ dᵢ·2^i = a, digits odd, |dᵢ| < 2^(w−1), length ≤ 129 for |a| < 2^128),
+  --   split_exp_sound (a ≡ r1 + r2·λ (mod n), |r1|,|r2| < 2^128)
+  -- OPEN: ecmultGen_correct, ecmult_correct (the latter under the explicit hypothesis #E(F_p) = n)
+  -- OPEN: prec pointwise form prec[j][i] = (i+1)·16^j·G as a corollary of `prec_spec` (row relations proved)
+-/
 
 end GocoinV.Props.C08
